@@ -302,4 +302,127 @@ theorem cleanedUrl_prefix (P s : Str) (hP : cleanEnds P = true) :
   rw [hc] at hlast
   simpa using hlast
 
+/-! ## hops: every level of the recursion reads the CLEANED form of what it is given
+
+A hop's target is a percent-decoded value: it can hold control characters or padding that were
+escaped — invisible — one level up.  `followed target c` is what a hop does with the cleaned url
+`c`; the theorems of `Props/C15.lean` (`stepOf_eq_hop`, `inferOf_eq_hop`, `inferFuel_eq_iterStep`,
+`inferOf_hops_clean`) say that the non-recursive form AND every level of the recursion are
+`followed target ∘ cleanedUrl`.  `inferCleanOnce` is the other recursion one could write — clean the
+argument at the entry, let the hops look at their decoded targets as they are —: it is there
+only to show (`Props.C15.clean_once_is_not_a_fixed_point`) that the fixed-point clause fails for
+it, i.e. that the clause is about per-hop cleaning. -/
+
+/-- the target a hop follows, as a function of the CLEANED url `c`: what the extraction
+designates, provided it is strictly shorter than `c` (the code's guard) -/
+def followed (target : Str → Option Str) (c : Str) : Option Str :=
+  match target c with
+  | some t => if t.length < c.length then some t else none
+  | none => none
+
+theorem followed_length_lt (target : Str → Option Str) (c t : Str) (h : followed target c = some t) :
+    t.length < c.length := by
+  unfold followed at h
+  cases ht : target c with
+  | none => rw [ht] at h; exact absurd h (by simp)
+  | some t' =>
+    rw [ht] at h
+    simp only [] at h
+    split at h
+    · injection h with h; rw [← h]; assumption
+    · exact absurd h (by simp)
+
+/-- iterating a function on one of its fixed points -/
+theorem iterStep_fixed (f : Str → Str) (n : Nat) (u : Str) (h : f u = u) : iterStep f n u = u := by
+  induction n with
+  | zero => rfl
+  | succ n ih => show iterStep f n (f u) = u; rw [h]; exact ih
+
+/-- a recursion that takes its argument AS IT IS (no cleaning), on fuel; `none` = nothing followed -/
+def rawHops (target : Str → Option Str) : Nat → Str → Option Str
+  | 0, _ => none
+  | fuel + 1, c =>
+    match followed target c with
+    | some t => some ((rawHops target fuel t).getD t)
+    | none => none
+
+/-- "clean once": the argument is cleaned at the entry only; the hops look at their (decoded)
+targets uncleaned.  NOT the model of the code — the counter-model of
+`Props.C15.clean_once_is_not_a_fixed_point`. -/
+def inferCleanOnce (target : Str → Option Str) (u : Str) : Str :=
+  (rawHops target (u.length + 1) (cleanedUrl u)).getD u
+
+/-! ### cleaning is idempotent -/
+
+theorem isControlChar_false_of_mem_cleanedUrl {c : Char} {u : Str} (h : c ∈ cleanedUrl u) :
+    UrlParts.isControlChar c = false := by
+  unfold cleanedUrl strip at h
+  have h1 := mem_of_mem_rstrip h
+  unfold lstrip at h1
+  have h2 := (List.dropWhile_sublist isSpace).subset h1
+  unfold UrlParts.stripControl at h2
+  have := (List.mem_filter.mp h2).2
+  simpa using this
+
+theorem head_dropWhile_not {p : Char → Bool} (l : Str) (c : Char)
+    (h : (l.dropWhile p).head? = some c) : p c = false := by
+  induction l with
+  | nil => simp at h
+  | cons a as ih =>
+    by_cases ha : p a = true
+    · rw [List.dropWhile_cons_of_pos ha] at h; exact ih h
+    · rw [List.dropWhile_cons_of_neg ha] at h
+      simp only [List.head?_cons, Option.some.injEq] at h
+      rw [← h]; simpa using ha
+
+/-- what is left after `rstrip` starts as the string started (if anything is left) -/
+theorem head_rstrip (s : Str) (c : Char) (h : (rstrip s).head? = some c) : s.head? = some c := by
+  unfold rstrip at h
+  obtain ⟨t, ht⟩ : ∃ t, s.reverse = t ++ List.dropWhile isSpace s.reverse :=
+    ⟨_, (List.takeWhile_append_dropWhile (p := isSpace) (l := s.reverse)).symm⟩
+  have hs : s = (List.dropWhile isSpace s.reverse).reverse ++ t.reverse := by
+    have := congrArg List.reverse ht
+    rw [List.reverse_reverse, List.reverse_append] at this
+    exact this
+  cases hd : (List.dropWhile isSpace s.reverse).reverse with
+  | nil => rw [hd] at h; simp at h
+  | cons a as =>
+    rw [hd] at h hs
+    rw [hs]
+    simpa using h
+
+theorem cleanedUrl_idempotent (u : Str) : cleanedUrl (cleanedUrl u) = cleanedUrl u := by
+  have hc : ∀ c ∈ cleanedUrl u, UrlParts.isControlChar c = false :=
+    fun c h => isControlChar_false_of_mem_cleanedUrl h
+  have h1 : ∀ c, (cleanedUrl u).head? = some c → isSpace c = false := by
+    intro c h
+    unfold cleanedUrl strip at h
+    have := head_rstrip _ c h
+    unfold lstrip at this
+    exact head_dropWhile_not _ c this
+  have h2 : ∀ c, (cleanedUrl u).getLast? = some c → isSpace c = false := by
+    intro c h
+    unfold cleanedUrl strip rstrip at h
+    rw [List.getLast?_reverse] at h
+    exact head_dropWhile_not _ c h
+  -- as in `Props.C15.cleanedUrl_eq_self`
+  generalize cleanedUrl u = v at hc h1 h2
+  unfold cleanedUrl strip rstrip lstrip UrlParts.stripControl
+  have e1 : List.filter (fun c => !UrlParts.isControlChar c) v = v := by
+    rw [List.filter_eq_self]; intro c hc'; simp [hc c hc']
+  rw [e1]
+  have e2 : List.dropWhile isSpace v = v := by
+    cases v with
+    | nil => rfl
+    | cons c cs => simp [h1 c rfl]
+  rw [e2]
+  have e3 : List.dropWhile isSpace v.reverse = v.reverse := by
+    cases hr : v.reverse with
+    | nil => rfl
+    | cons c cs =>
+      have : v.getLast? = some c := by
+        rw [← List.head?_reverse, hr]; rfl
+      simp [h2 c this]
+  rw [e3, List.reverse_reverse]
+
 end Ural
